@@ -119,7 +119,7 @@ def receivers_for(Pm, cname):
     the read-only flag and int/bool kinds where the class admits them."""
     if cname == 'Units':
         return [{'cls': 'Units', 'units': u} for u in ('KM', 'DEG', 'UNITLESS')], \
-               [{'cls': 'Units', 'units': u} for u in ('SEC', 'custom')]
+               [{'cls': 'Units', 'units': u} for u in ('SEC', 'custom', 'unnamed')]
     c = getattr(Pm, cname)
     core, ext = [], []
     kinds = [k for k, ok in (('float', c.FLOATS_OK), ('int', c.INTS_OK), ('bool', c.BOOLS_OK)) if ok]
@@ -152,6 +152,8 @@ def receivers_for(Pm, cname):
                 recv_desc(cname, (0,), item, k0, 'aF', dv, un),
                 recv_desc(cname, (3,), item, k0, 'F', 'none', un, True),
                 recv_desc(cname, (), item, k0, 'F', 'none', None, True)]
+        if c.UNITS_OK and item == ITEMS[cname][0]:
+            ext.append(recv_desc(cname, (3,), item, k0, 'mix', dv, 'unnamed'))
         for k in kinds[1:]:
             ext += [recv_desc(cname, (3,), item, k, 'mix'), recv_desc(cname, (), item, k, 'F'),
                     recv_desc(cname, (2, 3), item, k, 'F')]
@@ -207,6 +209,8 @@ def build_units(Pm, name):
         return None
     if name == 'custom':
         return Pm.Units((1, -1, 0), (1, 1000, 0), 'm/s')
+    if name == 'unnamed':       # units as arithmetic leaves them: no name of their own (seeded change C07-O: printing
+        return Pm.Units((1, -2, 0), (1, 1000, 0))      # them stored a generated name in the operand's Units object)
     return getattr(Pm.Units, name)
 
 
@@ -761,6 +765,9 @@ def call_id(d):
     return hashlib.sha1(json.dumps(d, sort_keys=True, default=str).encode()).hexdigest()[:16]
 
 
+INT_METHODS = ('as_index', 'as_index_and_mask', 'int', 'as_int', '__invert__', '__lshift__', '__rshift__')
+
+
 def call_list(Pm):
     """The whole deterministic call list."""
     calls = []
@@ -770,7 +777,10 @@ def call_list(Pm):
         core, ext = rc[cname]
         for full, rl in ((True, core), (False, ext)):
             for rdesc in rl:
-                for args in _variants(cname, mname, kind, sig, rdesc, full):
+                # methods that make sense for integers only get every argument variant on the integer receivers
+                # (seeded change C07-N: as_index(masked=k) wrote into an int64 operand with a partial mask)
+                full_ = full or (mname in INT_METHODS and rdesc.get('kind') == 'int')
+                for args in _variants(cname, mname, kind, sig, rdesc, full_):
                     d = {'cls': cname, 'name': mname, 'kind': kind, 'recv': rdesc, 'args': args}
                     calls.append(d)
     seen = set()
